@@ -8,6 +8,12 @@ op lines go to the Lean model driver (`nixdriver C10`).  After every op the resu
 section state (all properties with dtype, values as bit patterns, optional attributes; child
 sections) are compared.
 
+Kept objects (round 3): a history may keep `Property` objects (`hold` / `createh`, used later by `hget` / `hset` /
+`hextend` / `hclear` / `hsetattr` / `hsetodml`) while the same property is written through other objects, and it runs
+every section-level call through one of several `Section` objects of the same section (annotation `{"@": {"sec": n}}`
+as last element of an op; the model has one section, so the annotation is stripped from the model's line).  In an
+*eager* history every kept object is read after every operation, in a *lazy* one only by its `hget` operations.
+
 Encoding (shared with lean/Driver/C10.lean): strings are arrays of code points, ints and float bit
 patterns are decimal strings, a Python value is {"c": class, "v": payload} (+ "w"/"raw"/"k" telling
 the harness which concrete numpy width / odd object to build — the model does not read those).
@@ -41,6 +47,12 @@ THEOREMS = [
     "Nix.C10.C10_dict_consistent",
     "Nix.C10.C10_dict_setitem_getitem",
     "Nix.C10.C10_dict_delitem",
+    "Nix.C10.C10_kept_objects_refine_lookups",
+    "Nix.C10.C10_kept_object_reads_current",
+    "Nix.C10.C10_kept_object_write_read",
+    "Nix.C10.C10_kept_object_sees_lookup_write",
+    "Nix.C10.C10_kept_object_extend_appends",
+    "Nix.C10.C10_kept_object_stays_bound",
 ]
 ASSUMPTIONS = [
     "the state of the model is one section of a file written by the current nixio (format >= 1.1.1); persistence "
@@ -318,7 +330,7 @@ def cell_of(v, dt=None):
 class Impl:
     """one history on one fresh section of one fresh file of the real nixio"""
 
-    def __init__(self, path):
+    def __init__(self, path, eager=True):
         import nixio
         self.nix = nixio
         self.path = path
@@ -329,6 +341,11 @@ class Impl:
         self.idmap = {}
         self.rev = {}
         self.next = 0
+        self.eager = eager
+        self.secs = [self.sec]      # Section objects of the one section, obtained at different times
+        self.nsec = 0
+        self.handles = {}           # kept Property objects
+        self.hids = {}              # handle -> canonical id of its property
 
     def close(self):
         try:
@@ -387,14 +404,102 @@ class Impl:
         return {"name": cps(dec(at.get("name"))), "id": self._canon_id(dec(at.get("entity_id"))),
                 "dtype": dtype_name(p.data_type), "vals": [cell_of(v) for v in p.values], "attrs": a}
 
-    def dump(self):
-        props = [self.prop_json_fast(p) for p in self.sec.props]
-        secs = [{"name": cps(s.name), "id": self._canon_id(s.id)} for s in self.sec.sections]
-        return {"props": props, "secs": secs}
+    def dump(self, handles=False):
+        fresh = self.file.sections["s"]          # a new Section object: nothing kept between calls
+        props = [self.prop_json_fast(p) for p in fresh.props]
+        secs = [{"name": cps(s.name), "id": self._canon_id(s.id)} for s in fresh.sections]
+        st = {"props": props, "secs": secs}
+        if handles:
+            # a kept object whose property was deleted is no longer spoken about (model: pruned)
+            live = set(p["id"] for p in props)
+            for hid in [h for h in self.handles if self.hids[h] not in live]:
+                del self.handles[hid]
+                del self.hids[hid]
+            if self.eager:
+                st["handles"] = dict((str(hid), self.prop_json(h)) for hid, h in self.handles.items())
+        return st
+
+    def _section(self, ann):
+        """the Section object this call goes through"""
+        how = ann.get("newsec")
+        if how:
+            f = self.file
+            if how == "name":
+                s = f.sections["s"]
+            elif how == "pos":
+                s = f.sections[0]
+            elif how == "find":
+                s = f.find_sections(lambda x: x.name == "s")[0]
+            else:
+                s = f.sections[self.sec.id]
+            if len(self.secs) < 4:
+                self.secs.append(s)
+            else:
+                self.secs[1 + self.nsec % 3] = s
+                self.nsec += 1
+            return s
+        return self.secs[ann.get("sec", 0) % len(self.secs)]
+
+    def _fetch(self, sec, key, how):
+        """a Property object for section.props[key], obtained the way `how` says"""
+        nix = self.nix
+        p = sec.props[key]
+        pid = p.id
+        if how == "iter":
+            cands = list(sec.props)
+        elif how == "items":
+            cands = [x for _, x in sec.items() if isinstance(x, nix.Property)]
+        elif how == "contitems":
+            cands = [x for _, x in sec.props.items()]
+        elif how == "iterself":
+            cands = [x for x in sec if isinstance(x, nix.Property)]
+        else:
+            return p
+        for q in cands:
+            if q.id == pid:
+                return q
+        return p
 
     def _do(self, op):
-        nix, sec = self.nix, self.sec
+        op, ann = split_ann(op)
+        nix, sec = self.nix, self._section(ann)
         kind = op[0]
+        if kind == "hold":
+            h = self._fetch(sec, self.key(op[2]), ann.get("how", "getitem"))
+            if ann.get("read"):
+                h.values
+            self.handles[op[1]] = h
+            self.hids[op[1]] = self._canon_id(h.id)
+            return self.prop_json(h)
+        if kind == "createh":
+            h = sec.create_property(from_cps(op[2]), build_input(op[3]))
+            if ann.get("read"):
+                h.values
+            self.handles[op[1]] = h
+            self.hids[op[1]] = self._canon_id(h.id)
+            return None
+        if kind == "drop":
+            self.handles.pop(op[1], None)
+            self.hids.pop(op[1], None)
+            return None
+        if kind in ("hset", "hextend", "hclear", "hsetattr", "hsetodml", "hget"):
+            h = self.handles[op[1]]           # an unknown handle: KeyError, as in the model's protocol
+            if kind == "hset":
+                h.values = build_input(op[2])
+            elif kind == "hextend":
+                h.extend_values(build_input(op[2]))
+            elif kind == "hclear":
+                h.delete_values()
+            elif kind == "hsetattr":
+                setattr(h, op[2], attrval(op[3]))
+            elif kind == "hsetodml":
+                from nixio.property import OdmlType
+                h.odml_type = OdmlType(op[2]) if isinstance(op[2], str) else op[2]
+            else:
+                return self.prop_json(h)
+            return None
+        if kind == "iter":
+            return [[cps(x.name), "prop" if isinstance(x, nix.Property) else "sec"] for x in sec]
         if kind == "create":
             sec.create_property(from_cps(op[1]), build_input(op[2]))
             return None
@@ -444,8 +549,11 @@ class Impl:
             return [[cps(n), "prop" if isinstance(x, nix.Property) else "sec"] for n, x in sec.items()]
         if kind == "reopen":
             self.file.close()
+            self.handles.clear()
+            self.hids.clear()
             self.file = nix.File.open(self.path, nix.FileMode.ReadWrite)
             self.sec = self.file.sections["s"]
+            self.secs = [self.sec]
             return None
         raise ValueError("unknown op %r" % (kind,))
 
@@ -455,12 +563,23 @@ class Impl:
             out = {"ok": r}
         except Exception as e:  # canonicalised by class
             out = {"err": err_name(e)}
-        out["state"] = self.dump()
+        out["state"] = self.dump(handles=True)
         return out
 
 
-def run_history_impl(ctx, ops, n):
-    im = Impl(ctx.tmpfile("c10-%d.nix" % n))
+def split_ann(op):
+    """(operation as the model sees it, harness-side annotation)"""
+    if op and isinstance(op[-1], dict) and "@" in op[-1]:
+        return op[:-1], op[-1]["@"]
+    return op, {}
+
+
+def model_line(op):
+    return split_ann(op)[0]
+
+
+def run_history_impl(ctx, ops, n, eager=True):
+    im = Impl(ctx.tmpfile("c10-%d.nix" % n), eager)
     try:
         return [im.apply(op) for op in ops]
     finally:
@@ -734,7 +853,7 @@ def attr_value(g, name):
     return {"other": r.random() < 0.5}
 
 
-def gen_history(ctx, g, n_ops, junky, im, fixed_prefix=()):
+def gen_history(ctx, g, n_ops, junky, im, fixed_prefix=(), handles=True):
     """generate a history online against the implementation (choices look at the real section)"""
     r = g.rng
     profile = PROFILE_JUNK if junky else PROFILE_VALID
@@ -747,17 +866,45 @@ def gen_history(ctx, g, n_ops, junky, im, fixed_prefix=()):
 
     for op in fixed_prefix:
         emit(op)
-    W = [("create", 14), ("set", 16), ("extend", 16), ("clear", 4), ("setattr", 7), ("setodml", 3), ("get", 4),
+    W = [("create", 12), ("set", 13), ("extend", 13), ("clear", 4), ("setattr", 6), ("setodml", 3), ("get", 4),
          ("mksec", 4), ("getitem", 8), ("setitem", 9), ("delitem", 4), ("contains", 5), ("len", 1), ("items", 2),
-         ("reopen", 3)]
+         ("reopen", 3), ("iter", 2)]
+    if handles:
+        W += [("hold", 7), ("createh", 3), ("hset", 6), ("hextend", 8), ("hclear", 2), ("hsetattr", 2), ("hsetodml", 1),
+              ("hget", 5), ("drop", 1)]
     kinds = [k for k, w in W for _ in range(w)]
+    multi_sec = handles and r.random() < 0.6
+    raw_emit = emit
+
+    def emit(op):                                    # noqa: F811 - adds the Section object the call goes through
+        if multi_sec and op[0] not in ("reopen", "hset", "hextend", "hclear", "hsetattr", "hsetodml", "hget", "drop"):
+            c = r.random()
+            ann = {}
+            if c < 0.12:
+                ann["newsec"] = r.choice(["name", "pos", "find", "id"])
+            elif c < 0.8:
+                ann["sec"] = r.randrange(4)
+            if op[0] in ("hold", "createh"):
+                ann.update(op[-1]["@"])
+                op = op[:-1]
+            if ann:
+                op = op + [{"@": ann}]
+        return raw_emit(op)
+
+    def hold_ann():
+        return {"@": {"how": r.choice(["getitem", "getitem", "iter", "items", "contitems", "iterself"]),
+                      "read": r.random() < 0.6}}
+
     while len(ops) < n_ops:
         st = outs[-1]["state"] if outs else {"props": [], "secs": []}
         props, secs = st["props"], st["secs"]
         kind = r.choice(kinds)
-        if not props and kind in ("set", "extend", "clear", "setattr", "setodml", "get", "delitem") \
+        if not props and kind in ("set", "extend", "clear", "setattr", "setodml", "get", "delitem", "hold") \
                 and r.random() < 0.85:
-            kind = "create"
+            kind = "create" if r.random() < 0.7 or not handles else "createh"
+        if kind in ("hset", "hextend", "hclear", "hsetattr", "hsetodml", "hget") and not im.handles \
+                and r.random() < 0.9:
+            kind = "hold" if props else "createh"
 
         def name_key():
             c = r.random()
@@ -801,7 +948,37 @@ def gen_history(ctx, g, n_ops, junky, im, fixed_prefix=()):
                     return props[i]["dtype"]
             return r.choice(MAIN_DTYPES)
 
-        if kind == "create":
+        def hid_live():
+            if im.handles and r.random() < 0.95:
+                return r.choice(sorted(im.handles))
+            return r.randrange(4)
+
+        def dtype_of_handle(hid):
+            cid = im.hids.get(hid)
+            for p in props:
+                if p["id"] == cid:
+                    return p["dtype"]
+            return r.choice(MAIN_DTYPES)
+
+        if kind == "hold":
+            emit(["hold", r.randrange(4), prop_key(), hold_ann()])
+        elif kind in ("hset", "hextend"):
+            hid = hid_live()
+            emit([kind, hid, g.input_for(dtype_of_handle(hid), profile)])
+        elif kind == "hclear":
+            emit(["hclear", hid_live()])
+        elif kind == "hsetattr":
+            a = r.choice(ATTR_NAMES)
+            emit(["hsetattr", hid_live(), a, attr_value(g, a)])
+        elif kind == "hsetodml":
+            emit(["hsetodml", hid_live(), r.choice(ODML + [None])])
+        elif kind == "hget":
+            emit(["hget", hid_live()])
+        elif kind == "drop":
+            emit(["drop", hid_live()])
+        elif kind == "iter":
+            emit(["iter"])
+        elif kind in ("create", "createh"):
             c = r.random()
             used = [from_cps(p["name"]) for p in props]
             fresh = [n for n in NAMES if n not in used]
@@ -818,7 +995,10 @@ def gen_history(ctx, g, n_ops, junky, im, fixed_prefix=()):
                 inp = {"type": r.choice(["np:" + d for d in ALL_DTYPES] + ["bool", "int", "float", "str"])}
             else:
                 inp = g.input_for(r.choice(MAIN_DTYPES), profile)
-            emit(["create", cps(name), inp])
+            if kind == "createh":
+                emit(["createh", r.randrange(4), cps(name), inp, hold_ann()])
+            else:
+                emit(["create", cps(name), inp])
         elif kind in ("set", "extend"):
             k = prop_key()
             emit([kind, k, g.input_for(dtype_of(k), profile)])
@@ -856,6 +1036,9 @@ def gen_history(ctx, g, n_ops, junky, im, fixed_prefix=()):
             emit(["items"])
         else:
             emit(["reopen"])
+    # every kept object is read once more at the end (the only reads of a lazy history besides its `hget`s)
+    for hid in sorted(im.handles):
+        emit(["hget", hid])
     return ops, outs
 
 
@@ -895,7 +1078,52 @@ FIXED_HISTORIES = [
 ]
 
 
+HANDLE_OPS = ("hold", "createh", "hset", "hextend", "hclear", "hsetattr", "hsetodml", "hget", "drop")
+
+
+def _ann(**kw):
+    return {"@": kw}
+
+
+def _two_object_histories():
+    """one property, two objects: each way of writing through the one, then reading and extending through the other"""
+    out = []
+    a = {"n": cps("a")}
+    samples = {"int": [jint(1), jint(2), jint(3), jint(4), jint(5), jint(6)],
+               "str": [jstr("x"), jstr("ü"), jstr(""), jstr("y"), jstr("zz"), jstr("w")],
+               "float": [jfloat(1.5), jfloat(-0.0), jfloat(2.5), jfloatbits(0x7FF8000000000001), jfloat(4.0), jfloat(5.0)],
+               "bool": [jbool(True), jbool(False), jbool(True), jbool(True), jbool(False), jbool(False)]}
+    writes = [["set", a, None], ["extend", a, None], ["clear", a], ["setitem", cps("a"), None], ["hset", 1, None],
+              ["hextend", 1, None], ["hclear", 1]]
+    for kind, v in samples.items():
+        for w in writes:
+            if kind != "int" and w[0] not in ("extend", "setitem", "hclear"):
+                continue
+            for how in ("getitem", "items"):
+                w2 = list(w)
+                if w2[-1] is None:
+                    w2[-1] = {"list": v[2:3]} if w2[0] in ("extend", "hextend") else {"list": v[3:4]}
+                out.append([["createh", 0, cps("a"), {"list": v[0:2]}, _ann(read=True)],
+                            ["hold", 1, a, _ann(how=how, read=False)], w2, ["hget", 0],
+                            ["hextend", 0, {"list": v[4:6]}], ["hget", 1], ["get", a], ["reopen"], ["get", a]])
+    # the attributes and the dictionary view through a second Section object
+    out.append([["create", cps("a"), {"list": samples["int"][:2]}, _ann(newsec="name")],
+                ["hold", 0, a, _ann(read=True, how="iter")], ["setattr", a, "unit", {"str": cps("mV")}, _ann(newsec="pos")],
+                ["hget", 0], ["hsetattr", 0, "definition", {"str": cps("d")}], ["get", a], ["len", _ann(sec=0)],
+                ["mksec", cps("sub"), cps("t"), _ann(sec=1)], ["items", _ann(sec=2)], ["iter", _ann(sec=0)],
+                ["delitem", a, _ann(sec=1)], ["len", _ann(sec=0)], ["contains", a, _ann(sec=2)], ["hget", 0],
+                ["setitem", cps("a"), {"scalar": jstr("t")}, _ann(sec=2)], ["hold", 0, a], ["getitem", a, _ann(sec=0)],
+                ["hget", 0]])
+    return out
+
+
+HANDLE_HISTORIES = _two_object_histories()
+
+
 def compare(model, impl):
+    if "handles" not in impl["state"] and "handles" in model.get("state", {}):
+        model = dict(model)                       # lazy history: kept objects are read by `hget` only
+        model["state"] = dict((k, v) for k, v in model["state"].items() if k != "handles")
     return core.canon(model) == core.canon(impl)
 
 
@@ -904,13 +1132,15 @@ def nontrivial(op, out, prev_state):
         return True
     if core.canon(out["state"]) != core.canon(prev_state):
         return True
-    return op[0] in ("getitem", "get", "contains", "items") and out.get("ok") not in (None, False, [])
+    return op[0] in ("getitem", "get", "contains", "items", "iter", "hget", "hold") and \
+        out.get("ok") not in (None, False, [])
 
 
 def op_tag(op):
+    op = model_line(op)
     t = op[0]
-    if t in ("create", "set", "extend", "setitem"):
-        inp = op[2]
+    if t in ("create", "set", "extend", "setitem", "hset", "hextend", "createh"):
+        inp = op[3] if t == "createh" else op[2]
         if inp is None:
             return t + ".none"
         for k in ("scalar", "list", "nd", "type", "S"):
@@ -937,12 +1167,12 @@ def correspondence(ctx):
         if not histories:
             return
         lines = []
-        for ops, _ in histories:
+        for ops, _, _ in histories:
             lines.append(["reset"])
-            lines.extend(ops)
+            lines.extend(model_line(op) for op in ops)
         mouts = core.run_driver(PROP, lines)
         start = 0
-        for ops, iouts in histories:
+        for ops, iouts, eager in histories:
             pos = start + 1               # after the reset line
             start += 1 + len(ops)
             counters["histories"] += 1
@@ -958,10 +1188,10 @@ def correspondence(ctx):
                 if "err" in io:
                     dist["impl_errors"][io["err"]] = dist["impl_errors"].get(io["err"], 0) + 1
                 if nontrivial(op, io, prev):
-                    seen.add(core.sha(core.canon([op, io.get("ok"), io.get("err")])))
+                    seen.add(core.sha(core.canon([model_line(op), io.get("ok"), io.get("err")])))
                 prev = io["state"]
                 if not compare(mo, io):
-                    disagreements.append(Disagreement({"ops": ops[:k + 1]}, _brief(mo), _brief(io)))
+                    disagreements.append(Disagreement({"ops": ops[:k + 1], "eager": eager}, _brief(mo), _brief(io)))
                     break
             else:
                 if len(samples) < 4 and rng.random() < 0.05:
@@ -972,23 +1202,31 @@ def correspondence(ctx):
     batch = []
     for h in core.load_corpus(PROP):
         ops = h["ops"]
-        batch.append((ops, run_history_impl(ctx, ops, n)))
+        for eager in ((True, False) if any(op[0] in HANDLE_OPS for op in ops) else (True,)):
+            batch.append((ops, run_history_impl(ctx, ops, n, eager), eager))
+            n += 1
         dist["profiles"]["corpus"] += 1
-        n += 1
-    for ops in FIXED_HISTORIES:
-        batch.append((ops, run_history_impl(ctx, ops, n)))
+    for ops in FIXED_HISTORIES + HANDLE_HISTORIES:
+        for eager in ((True, False) if any(op[0] in HANDLE_OPS for op in ops) else (True,)):
+            batch.append((ops, run_history_impl(ctx, ops, n, eager), eager))
+            n += 1
         dist["profiles"]["fixed"] += 1
-        n += 1
     g = Gen(rng)
+    dist["kept_objects"] = {"histories_with": 0, "eager": 0, "lazy": 0}
     for _ in range(ctx.budget(180, 2500)):
         junky = rng.random() < 0.2
-        im = Impl(ctx.tmpfile("c10-%d.nix" % n))
+        with_handles = rng.random() < 0.6
+        eager = rng.random() < 0.5
+        im = Impl(ctx.tmpfile("c10-%d.nix" % n), eager)
         try:
-            ops, outs = gen_history(ctx, g, rng.choice([6, 10, 14, 20, 30, 45]), junky, im)
+            ops, outs = gen_history(ctx, g, rng.choice([6, 10, 14, 20, 30, 45]), junky, im, handles=with_handles)
         finally:
             im.close()
-        batch.append((ops, outs))
+        batch.append((ops, outs, eager))
         dist["profiles"]["junk" if junky else "valid"] += 1
+        if with_handles:
+            dist["kept_objects"]["histories_with"] += 1
+            dist["kept_objects"]["eager" if eager else "lazy"] += 1
         n += 1
         if len(batch) >= 200:
             flush(batch)
@@ -997,7 +1235,10 @@ def correspondence(ctx):
     disagreements.sort(key=lambda d: len(d.case["ops"]))
     return {"evaluations": evals, "distinct_nontrivial": len(seen),
             "rule": "histories of 6-45 operations (create / assign / extend / clear / attribute setters / dict-style "
-                    "access / create_section / reopen) generated online against one fresh section of a fresh HDF5 file; "
+                    "access / create_section / reopen; in 60% of the histories also kept Property objects - obtained by "
+                    "lookup, iteration, items() or as create_property's result - that are read, assigned, extended and "
+                    "cleared while the same property is written through other objects, and several Section objects of the "
+                    "one section taking turns) generated online against one fresh section of a fresh HDF5 file; "
                     "80% mostly-valid profile, 20% junk-heavy profile, plus fixed boundary histories and the corpus; "
                     "after every operation the result and the complete section state (names, ids renamed by first "
                     "occurrence, dtype, values as bit patterns, 8 optional attributes, child sections) are compared with "
@@ -1129,20 +1370,66 @@ def _find(state, k):
     return None
 
 
-def check_history(ctx, ops, n, label):
+def effective(op, im):
+    """the call on a fresh lookup an operation amounts to (a call through a kept object: the same call with the id of
+    its property as key); must be asked *before* the operation runs"""
+    op = model_line(op)
+    k = op[0]
+    if k == "createh":
+        return ["create", op[2], op[3]]
+    if k == "hold":
+        return ["get", op[2]]
+    if k == "iter":
+        return ["items"]
+    if k == "drop":
+        return ["noop"]
+    if k in ("hset", "hextend", "hclear", "hsetattr", "hsetodml", "hget"):
+        cid = im.hids.get(op[1])
+        if cid is None or op[1] not in im.handles:
+            return ["noop"]
+        return [k[1:], {"id": cid}] + list(op[2:])
+    return op
+
+
+def _rec_diff(got, want):
+    for f in ("vals", "dtype", "name", "id", "attrs"):
+        if core.canon(got.get(f)) != core.canon(want.get(f)):
+            return f
+    return None
+
+
+def check_history(ctx, ops, n, label, eager=True):
     """run a history on the implementation and check what C10 states; returns Failures"""
     fails = []
-    im = Impl(ctx.tmpfile("c10-or-%d.nix" % n))
+    im = Impl(ctx.tmpfile("c10-or-%d.nix" % n), eager)
 
     def fail(what, k, observed, required, site):
-        fails.append(Failure(what, {"ops": ops[:k + 1], "from": label}, observed, required, site))
+        fails.append(Failure(what, {"ops": ops[:k + 1], "eager": eager, "from": label}, observed, required, site))
 
     try:
         prev = im.dump()
-        for k, op in enumerate(ops):
-            out = im.apply(op)
+        for k, op0 in enumerate(ops):
+            op = effective(op0, im)
+            held = dict(im.hids)
+            out = im.apply(op0)
             st = out["state"]
             kind = op[0]
+            # --- one value list per property, whatever object is used: a kept Property object reports what a new one does
+            fresh_by_id = dict((p["id"], p) for p in st["props"])
+            seen_recs = [("after the call", im.hids.get(int(h)), rec) for h, rec in st.get("handles", {}).items()]
+            if op0[0] in ("hget", "hold") and isinstance(out.get("ok"), dict):
+                seen_recs.append(("returned", im.hids.get(op0[1]), out["ok"]))
+            for when, cid, rec in seen_recs:
+                want = fresh_by_id.get(cid)
+                if want is None:
+                    continue
+                d = _rec_diff(rec, want)
+                if d == "vals":
+                    fail("a kept Property object does not return the values last stored", k, rec["vals"][:8],
+                         want["vals"][:8], "Property.values (object kept across writes through other objects)")
+                elif d is not None:
+                    fail("a kept Property object reports another %s than a new one" % d, k, rec.get(d), want.get(d),
+                         "Property (object kept across writes through other objects)")
             before = {p["id"]: p for p in prev["props"]}
             after = {p["id"]: p for p in st["props"]}
             # --- dtype fixed, every value of that dtype (cells are built by class of the value read back)
@@ -1233,20 +1520,24 @@ def check_history(ctx, ops, n, label):
                 if t is not None and after.get(t["id"], {}).get("vals") != []:
                     fail("delete_values left values behind", k, after.get(t["id"], {}).get("vals"), [], "Property.delete_values")
             # --- operations that must not touch (other) value lists
-            if kind in ("get", "getitem", "contains", "len", "items", "reopen", "mksec", "setattr", "setodml"):
+            if kind in ("get", "getitem", "contains", "len", "items", "reopen", "mksec", "setattr", "setodml", "noop"):
                 if [(p["id"], p["dtype"], p["vals"]) for p in prev["props"]] != \
                         [(p["id"], p["dtype"], p["vals"]) for p in st["props"]]:
                     fail("%s changed stored values" % kind, k, "state differs", "unchanged", "Section/Property")
-            if kind == "reopen" and core.canon(prev) != core.canon(st):
+            if kind == "reopen" and core.canon(prev) != core.canon(dict((kk, v) for kk, v in st.items() if kk != "handles")):
                 fail("state after reopening differs", k, "differs", "identical", "File.open")
             if kind in ("set", "extend", "clear"):
                 t = _find(prev, op[1])
                 for pid, p in before.items():
                     if (t is None or pid != t["id"]) and (pid not in after or after[pid]["vals"] != p["vals"]):
                         fail("operation on one property changed another", k, pid, "unchanged", "Property." + kind)
-            # --- dictionary view
-            fails.extend(dict_checks(im, st, ops, k, label))
-            prev = st
+            # --- dictionary view, through every Section object the history holds
+            done = []
+            for sec in im.secs:
+                if not any(sec is x for x in done):
+                    done.append(sec)
+                    fails.extend(dict_checks(im, sec, st, ops, k, label, op, eager))
+            prev = dict((kk, v) for kk, v in st.items() if kk != "handles")
             if len(fails) > 20:
                 break
     finally:
@@ -1254,12 +1545,11 @@ def check_history(ctx, ops, n, label):
     return fails
 
 
-def dict_checks(im, st, ops, k, label):
+def dict_checks(im, sec, st, ops, k, label, op, eager):
     fails = []
-    sec = im.sec
 
     def fail(what, observed, required, site, extra=None):
-        inp = {"ops": ops[:k + 1], "from": label}
+        inp = {"ops": ops[:k + 1], "eager": eager, "from": label}
         if extra:
             inp.update(extra)
         fails.append(Failure(what, inp, observed, required, site))
@@ -1306,9 +1596,10 @@ def dict_checks(im, st, ops, k, label):
                     fail("dict-lookup: section[unused] did not raise", "value", "KeyError", "Section.__getitem__", {"key": name})
                 except KeyError:
                     pass
-        op = ops[k]
-        if op[0] == "setitem" and not (isinstance(op[2], dict) and "S" in op[2]):
-            pass
+        itn = [x.name for x in sec]
+        if itn != pn + sn:
+            fail("iterating the section is not properties then sections, in order", itn[:10], (pn + sn)[:10],
+                 "Section.__iter__")
         if op[0] == "delitem" and "n" in op[1]:
             name = from_cps(op[1]["n"])
             if name not in pn and name not in sn and name in sec:
@@ -1350,10 +1641,10 @@ ORACLE_FIXED = [
 ]
 
 
-def gen_oracle_history(ctx, g, n_ops, n):
-    im = Impl(ctx.tmpfile("c10-og-%d.nix" % n))
+def gen_oracle_history(ctx, g, n_ops, n, eager=True):
+    im = Impl(ctx.tmpfile("c10-og-%d.nix" % n), eager)
     try:
-        ops, _ = gen_history(ctx, g, n_ops, False, im)
+        ops, _ = gen_history(ctx, g, n_ops, False, im, handles=g.rng.random() < 0.7)
     finally:
         im.close()
     return ops
@@ -1363,13 +1654,15 @@ def oracle(ctx, broken, hints):
     rng = ctx.rng
     histories = []
     for h in hints[:60]:
-        histories.append(("hint", h["ops"]))
+        histories.append(("hint", h["ops"], h.get("eager", True)))
     for h in core.load_corpus(PROP):
-        histories.append(("corpus", h["ops"]))
+        histories.append(("corpus", h["ops"], True))
     for i, ops in enumerate(FIXED_HISTORIES):
-        histories.append(("fixed-%d" % i, ops))
+        histories.append(("fixed-%d" % i, ops, True))
+    for i, ops in enumerate(HANDLE_HISTORIES):
+        histories.append(("kept-%d" % i, ops, i % 2 == 0))
     for name, ops in ORACLE_FIXED:
-        histories.append((name, ops))
+        histories.append((name, ops, True))
     g = Gen(rng, clean=True)
     if broken:
         nh = 400 if ctx.quick() else 2500
@@ -1377,13 +1670,14 @@ def oracle(ctx, broken, hints):
         nh = 60 if ctx.quick() else 600
     base = len(histories)
     for i in range(nh):
-        histories.append(("random", gen_oracle_history(ctx, g, rng.choice([8, 14, 22, 35]), base + i)))
+        eager = rng.random() < 0.5
+        histories.append(("random", gen_oracle_history(ctx, g, rng.choice([8, 14, 22, 35]), base + i, eager), eager))
     failures = []
     seen = set()
     evals = 0
-    for n, (label, ops) in enumerate(histories):
+    for n, (label, ops, eager) in enumerate(histories):
         evals += len(ops)
-        for f in check_history(ctx, ops, 100000 + n, label):
+        for f in check_history(ctx, ops, 100000 + n, label, eager):
             key = (f.what, core.canon(f.input.get("key")), len(f.input["ops"]) if label != "random" else 0,
                    core.canon(f.input["ops"][-1][:2]))
             if key not in seen:
@@ -1407,7 +1701,11 @@ def matches_known(entry, failure):
     resized.  Only that failure on exactly such an operation matches; the UUID-shaped-name defect (D6) and the
     create/overflow defects are repaired in /repo and their histories stay in the fixed lists."""
     try:
-        op = failure.input["ops"][-1]
+        op = model_line(failure.input["ops"][-1])
+        if op[0] == "createh":
+            op = ["create", op[2], op[3]]
+        elif op[0] in ("hset", "hextend"):
+            op = [op[0][1:]] + list(op[1:])
     except Exception:
         return False
     if entry.get("class") == "nul-text-refused-after-resize":
@@ -1437,7 +1735,7 @@ def reproduces(ctx, entry):
 
 
 def replay_failure(ctx, fj):
-    fs = check_history(ctx, fj["input"]["ops"], 999998, "replay")
+    fs = check_history(ctx, fj["input"]["ops"], 999998, "replay", fj["input"].get("eager", True))
     for f in fs:
         if f.what == fj["what"]:
             return f
